@@ -49,7 +49,13 @@ pub const CHOICES: [Choice; 10] = [
 /// known: p::a::K, p::r#type::L;  unknown: a::K (a proper suffix of a known path), p::a::Z, and (thorough tier)
 /// p::b::L::X (a known path is its proper prefix)
 /// (the module of L is named with a raw identifier, as `mod r#type` is recorded by scale-info)
-pub const PATHS: [&str; 5] = ["p::a::K", "p::r#type::L", "a::K", "p::a::Z", "p::r#type::L::X"];
+pub const PATHS: [&str; 5] = [
+    "p::a::K",
+    "p::r#type::L",
+    "a::K",
+    "p::a::Z",
+    "p::r#type::L::X",
+];
 const D1: &str = "::d::One";
 const D2: &str = "::d::Two";
 const A1: &str = "#[a1]";
@@ -96,13 +102,22 @@ fn spec_of(s: &ValState) -> SettingsSpec {
                 sp.derives_for.push((p.clone(), vec![D1.into()], true));
                 sp.attrs_for.push((p, vec![A2.into()], true));
             }
-            Choice::Substitute => sp.substitutes.push((p.clone(), format!("::t::{}", p.replace("::", "_").replace("r#", "")))),
+            Choice::Substitute => sp.substitutes.push((
+                p.clone(),
+                format!("::t::{}", p.replace("::", "_").replace("r#", "")),
+            )),
             Choice::SubstAndSpecDerive => {
-                sp.substitutes.push((p.clone(), format!("::t::{}", p.replace("::", "_").replace("r#", ""))));
+                sp.substitutes.push((
+                    p.clone(),
+                    format!("::t::{}", p.replace("::", "_").replace("r#", "")),
+                ));
                 sp.derives_for.push((p, vec![D1.into()], false));
             }
             Choice::SubstAndRecAttr => {
-                sp.substitutes.push((p.clone(), format!("::t::{}", p.replace("::", "_").replace("r#", ""))));
+                sp.substitutes.push((
+                    p.clone(),
+                    format!("::t::{}", p.replace("::", "_").replace("r#", "")),
+                ));
                 sp.attrs_for.push((p, vec![A2.into()], true));
             }
         }
@@ -110,11 +125,19 @@ fn spec_of(s: &ValState) -> SettingsSpec {
     sp
 }
 
-type Model = (BTreeMap<String, BTreeSet<String>>, BTreeMap<String, BTreeSet<String>>, BTreeMap<String, String>);
+type Model = (
+    BTreeMap<String, BTreeSet<String>>,
+    BTreeMap<String, BTreeSet<String>>,
+    BTreeMap<String, String>,
+);
 
 /// the set-algebra model of "unknown paths"
 fn model(s: &ValState, reg: &PortableRegistry) -> Model {
-    let known: BTreeSet<String> = reg.types.iter().map(|t| t.ty.path.segments.join("::")).collect();
+    let known: BTreeSet<String> = reg
+        .types
+        .iter()
+        .map(|t| t.ty.path.segments.join("::"))
+        .collect();
     let mut d: BTreeMap<String, BTreeSet<String>> = BTreeMap::new();
     let mut a: BTreeMap<String, BTreeSet<String>> = BTreeMap::new();
     let mut sub: BTreeMap<String, String> = BTreeMap::new();
@@ -149,8 +172,14 @@ fn model(s: &ValState, reg: &PortableRegistry) -> Model {
             }
             _ => {}
         }
-        if matches!(c, Choice::Substitute | Choice::SubstAndSpecDerive | Choice::SubstAndRecAttr) {
-            sub.insert(p.clone(), squash(&format!("::t::{}", p.replace("::", "_").replace("r#", ""))));
+        if matches!(
+            c,
+            Choice::Substitute | Choice::SubstAndSpecDerive | Choice::SubstAndRecAttr
+        ) {
+            sub.insert(
+                p.clone(),
+                squash(&format!("::t::{}", p.replace("::", "_").replace("r#", ""))),
+            );
         }
     }
     (d, a, sub)
@@ -216,7 +245,12 @@ pub fn check_state(st: &ValState, ctx: &mut Ctx) {
             run_with(&sc, || observe(&sp, &reg))
         };
         match got {
-            Err(p) => ctx.violation("C11/panic", format!("validation panics: {p} (schedule {sc:?})"), replay(), 1),
+            Err(p) => ctx.violation(
+                "C11/panic",
+                format!("validation panics: {p} (schedule {sc:?})"),
+                replay(),
+                1,
+            ),
             Ok((got, problems)) => {
                 ctx.outcome(&got);
                 for p in problems {
@@ -237,7 +271,10 @@ pub fn check_state(st: &ValState, ctx: &mut Ctx) {
                     };
                     ctx.violation(
                         format!("C11/{clause}"),
-                        format!("validation result {:?} differs from the model {:?} (schedule {sc:?})", got, want),
+                        format!(
+                            "validation result {:?} differs from the model {:?} (schedule {sc:?})",
+                            got, want
+                        ),
                         replay(),
                         st.choices.iter().filter(|c| **c != Choice::Absent).count(),
                     );
@@ -340,7 +377,13 @@ pub fn check_sim(c: &SimCase, ctx: &mut Ctx) {
     } else {
         reg.types
             .iter()
-            .filter(|t| t.ty.path.segments.last().map(|l| l == last).unwrap_or(false))
+            .filter(|t| {
+                t.ty.path
+                    .segments
+                    .last()
+                    .map(|l| l == last)
+                    .unwrap_or(false)
+            })
             .map(|t| t.ty.path.segments.join("::"))
             .collect()
     };
@@ -352,7 +395,10 @@ pub fn check_sim(c: &SimCase, ctx: &mut Ctx) {
             if got != want {
                 ctx.violation(
                     "C11/similar",
-                    format!("similar_type_paths_in_registry({:?}) over {:?} = {:?}, model {:?}", c.query, c.paths, got, want),
+                    format!(
+                        "similar_type_paths_in_registry({:?}) over {:?} = {:?}, model {:?}",
+                        c.query, c.paths, got, want
+                    ),
                     replay(),
                     c.paths.len(),
                 );
@@ -362,12 +408,21 @@ pub fn check_sim(c: &SimCase, ctx: &mut Ctx) {
 }
 
 fn sim_cases(thorough: bool) -> Vec<SimCase> {
-    let pool = ["a::S", "b::S", "a::T", "b::c::S", "b::c::T", "S::a", "a::S2"];
+    let pool = [
+        "a::S", "b::S", "a::T", "b::c::S", "b::c::T", "S::a", "a::S2",
+    ];
     let pool = if thorough { &pool[..] } else { &pool[..6] };
-    let queries = ["x::S", "S", "T", "y::U", "a::b::S", "", "Option", "a::S", "S::a"];
+    let queries = [
+        "x::S", "S", "T", "y::U", "a::b::S", "", "Option", "a::S", "S::a",
+    ];
     let mut out = vec![];
     // all subsets of size <= 4 in all orders
-    fn perms(items: &[String], acc: &mut Vec<String>, used: &mut Vec<bool>, out: &mut Vec<Vec<String>>) {
+    fn perms(
+        items: &[String],
+        acc: &mut Vec<String>,
+        used: &mut Vec<bool>,
+        out: &mut Vec<Vec<String>>,
+    ) {
         out.push(acc.clone());
         if acc.len() == 4 {
             return;
@@ -384,7 +439,12 @@ fn sim_cases(thorough: bool) -> Vec<SimCase> {
     }
     let items: Vec<String> = pool.iter().map(|s| s.to_string()).collect();
     let mut regs = vec![];
-    perms(&items, &mut vec![], &mut vec![false; items.len()], &mut regs);
+    perms(
+        &items,
+        &mut vec![],
+        &mut vec![false; items.len()],
+        &mut regs,
+    );
     for r in regs {
         for q in queries {
             out.push(SimCase {
@@ -405,7 +465,9 @@ pub fn run(tier: &str, seed: u64) -> i32 {
         max_states: 10_000_000,
     };
     // only complete assignments (depth 4) differ from their prefixes by more `Absent`s; all are checked
-    let dval = DVal { n_paths: if thorough { 5 } else { 4 } };
+    let dval = DVal {
+        n_paths: if thorough { 5 } else { 4 },
+    };
     report.add(explore(&dval, &budget, seed, |s, ctx| check_state(s, ctx)));
     let cases = sim_cases(thorough);
     report.add(sweep(
